@@ -99,7 +99,7 @@ Print Assumptions C01_done_terminal_seq.
 
 (* a request that is not legal in the current state runs none of its hooks, sends no task command
    at all (only the hooks of the GO_ERROR fallback run), and leaves the environment in ERROR,
-   which is the state reported; the call is answered OK or Aborted *)
+   which is the state reported; the caller gets an error (Aborted) *)
 Theorem C01_illegal_inert :
   forall o ot ev w,
     w_listed w = true -> make_transition ot = Some ev -> doc_op ot (w_st w) = None ->
@@ -107,7 +107,7 @@ Theorem C01_illegal_inert :
     (forall e, ~ In (Body e) (snd (run_req o (QControl ot) w))) /\
     fst (fst (run_req o (QControl ot) w)) = mkWorld sERROR true /\
     snd (snd (fst (run_req o (QControl ot) w))) = Some sERROR /\
-    (fst (snd (fst (run_req o (QControl ot) w))) = 0 \/ fst (snd (fst (run_req o (QControl ot) w))) = 3).
+    fst (snd (fst (run_req o (QControl ot) w))) = 3.
 Proof. exact control_illegal_inert. Qed.
 Print Assumptions C01_illegal_inert.
 
@@ -119,7 +119,7 @@ Theorem C01_failed_is_error :
     sec_err (fsm_section env_events api_bodyful o (w_st w) ev) = true ->
     fst (fst (run_req o (QControl ot) w)) = mkWorld sERROR true /\
     snd (snd (fst (run_req o (QControl ot) w))) = Some sERROR /\
-    (fst (snd (fst (run_req o (QControl ot) w))) = 0 \/ fst (snd (fst (run_req o (QControl ot) w))) = 3).
+    fst (snd (fst (run_req o (QControl ot) w))) = 3.
 Proof. exact control_failed_is_error. Qed.
 Print Assumptions C01_failed_is_error.
 
